@@ -214,7 +214,7 @@ Proof.
       intros cs1 p1. cbn. destruct (decide (c0 = c)) as [->|Hnc].
       + rewrite lookup_insert. intros [= <-]. cbn. congruence.
       + rewrite lookup_insert_ne by congruence. intros H1 H2. congruence. }
-  pose proof (settle_lift (ES c0 s0 p0) (settle_one_es c0 s0 p0) (fuel_for (ms m)) m Hpost) as Hsp.
+  pose proof (settle_lift (ES c0 s0 p0) (settle_one_es c0 s0 p0) (fuel_for m) m Hpost) as Hsp.
   destruct Hs as [Hs|Hs]; rewrite Hs in Hsp; exact (Hsp cs' p Hc' Hp').
 Qed.
 
@@ -418,7 +418,7 @@ Proof.
     - injection Hh as <-. exact Hinit.
     - injection Hh as <-. exact Hinit.
     - injection Hh as <-. destruct (conns s !! c); exact Hinit. }
-  pose proof (settle_lift (CS b (c_svc cl)) (settle_one_cs b (c_svc cl)) (fuel_for (ms m)) m Hpost) as Hsp.
+  pose proof (settle_lift (CS b (c_svc cl)) (settle_one_cs b (c_svc cl)) (fuel_for m) m Hpost) as Hsp.
   destruct Hs as [Hs|Hs]; rewrite Hs in Hsp; exact (Hsp cl' Hcl').
 Qed.
 
